@@ -8,6 +8,7 @@ import asyncio
 import json
 import logging
 import os
+import shlex
 import shutil
 import stat
 import sys
@@ -158,10 +159,14 @@ async def history(with_undeploy):
         async def submit(k):
             await asyncio.sleep(rng.uniform(0, 0.4))
             marker = f"job-{k}-marker"
-            res = await slurm.run(loc, ["echo", marker], job_name=f"/{marker}/0")
+            # (characters whose base64 encoding needs '+' and '/', at every alignment)
+            tail = "x" * (k % 3) + "???>>>~~~" + f"END-OF-COMMAND-{k}"
+            res = await slurm.run(loc, ["echo", marker, shlex.quote(tail)], job_name=f"/{marker}/0")
             jid = next((n for n in os.listdir(fs.p("scripts")) if marker in fs.marker_of(n)), None)
             if jid is None:
                 problems.append({"failure": "the job was never submitted", "job": k})
+            elif f"END-OF-COMMAND-{k}" not in fs.marker_of(jid):
+                problems.append({"failure": "the script that reached sbatch is not the whole command of the job", "job": k, "job_id": jid, "script_tail": fs.marker_of(jid)[-120:]})
             elif fs.queued(jid):
                 problems.append({"failure": "run() returned while the job is still in the queue", "job": k, "job_id": jid,
                                  "state": open(fs.p("queue", jid)).read().strip(), "result": repr(res)})
